@@ -48,9 +48,20 @@ def h64(*parts):
     return int.from_bytes(m.digest(), 'big')
 
 
+def _canon(obj):
+    """JSON-able canonical form: dict keys become strings (foreign label files can hold any key type)."""
+    if isinstance(obj, dict):
+        return dict(((k if isinstance(k, str) else 'k:' + repr(k)), _canon(v)) for k, v in obj.items())
+    if isinstance(obj, (list, tuple)):
+        return [_canon(x) for x in obj]
+    if isinstance(obj, (set, frozenset)):
+        return sorted(repr(x) for x in obj)
+    return obj
+
+
 def hexdigest(obj):
     """Stable digest of a JSON-able object."""
-    s = json.dumps(obj, sort_keys=True, separators=(',', ':'), default=repr)
+    s = json.dumps(_canon(obj), sort_keys=True, separators=(',', ':'), default=repr)
     return hashlib.blake2b(s.encode('utf-8', 'surrogatepass'), digest_size=8).hexdigest()
 
 
